@@ -2014,12 +2014,18 @@ impl QueryServer {
         // Point of no return - we now have a DB thread AND the read ticket, we MUST complete
         // as soon as possible! The following locks and elements below are SYNCHRONOUS but
         // will never be contented at this point, and will always progress.
+        #[cfg(feature = "verif-hooks")]
+        crate::verif_hooks::pause("qs_read:begin");
         let schema = self.schema.read();
+        #[cfg(feature = "verif-hooks")]
+        crate::verif_hooks::pause("qs_read:after_schema");
 
         let cid_max = self.cid_max.read();
         let trim_cid = cid_max.sub_secs(CHANGELOG_MAX_AGE)?;
 
         let be_txn = self.be.read()?;
+        #[cfg(feature = "verif-hooks")]
+        crate::verif_hooks::pause("qs_read:after_be");
 
         Ok(QueryServerReadTransaction {
             be_txn,
@@ -3041,6 +3047,8 @@ impl<'a> QueryServerWriteTransaction<'a> {
         // Write the cid to the db. If this fails, we can't assume replication
         // will be stable, so return if it fails.
         be_txn.set_db_ts_max(cid.ts)?;
+        #[cfg(feature = "verif-hooks")]
+        crate::verif_hooks::pause("qs_commit:before_publish");
         cid.commit();
 
         // We don't care if this passes/fails, committing this is fine.
